@@ -685,6 +685,8 @@ class Gen:
         r = self.rng
         d = r.randint(1, self.max_depth)
         form = r.choice(["select", "select", "select", "where_select", "selectmany", "selectmany", "selectmany_where", "two_step", "selectmany2", "two_step_tuple"])
+        if r.random() < 0.08:
+            form = r.choice(["two_step_scalar", "two_step_twice"])
         e = self.fresh("e")
         env = [(e, "event")]
         ds = {"k": "ds"}
@@ -696,6 +698,42 @@ class Gen:
             cond = self.scalar(env, d, "bool")
             b, names = self.body([(e2, "event")], d)
             return {"k": "Select", "s": {"k": "Where", "s": ds, "x": e, "f": cond}, "x": e2, "f": b}, names, form
+        if form == "two_step_scalar":
+            # first compute one event-level value, then build a row in which that SAME value feeds several columns
+            # (after func_adl's simplification every use is the one shared AST object)
+            ty = r.choice(["int", "double"])
+            first = self.scalar(env, d, ty)
+            n = self.fresh("n")
+            uses = [{"k": "var", "n": n}, {"k": "var", "n": n}]
+            if r.random() < 0.7:
+                uses.append({"k": "bin", "op": r.choice(["+", "*"]), "a": {"k": "var", "n": n}, "b": {"k": "int", "v": r.choice([2, 3])}})
+            if r.random() < 0.3:
+                uses.append({"k": "var", "n": n})
+            r.shuffle(uses)
+            shape = r.choice(["tuple", "dict", "list"])
+            self.op(shape)
+            if shape == "dict":
+                ks = [f"k{i}_{r.choice(['pt', 'eta', 'n'])}" for i in range(len(uses))]
+                b, names = {"k": "dict", "ks": ks, "es": uses}, ks
+            else:
+                b, names = {"k": shape, "es": uses}, [f"col{i}" for i in range(len(uses))]
+            return {"k": "Select", "s": {"k": "Select", "s": ds, "x": e, "f": first}, "x": n, "f": b}, names, "two_step"
+        if form == "two_step_twice":
+            # a parameter bound to a FILTERED collection is traversed twice, side by side; the second traversal's body
+            # needs statements of its own (a conditional): each traversal must get its own loop
+            sc, et = self.coll(env)
+            x0 = self.fresh()
+            self.op("Where")
+            sc = {"k": "Where", "s": sc, "x": x0, "f": self.lam([], x0, et, 1, "bool")}
+            js = self.fresh("js")
+            y1, y2 = self.fresh(), self.fresh()
+            self.op("Select"); self.op("Select"); self.op("if")
+            c1 = {"k": "Select", "s": {"k": "var", "n": js}, "x": y1, "f": self.lam([], y1, et, 1, r.choice(["int", "double"]))}
+            c2 = {"k": "Select", "s": {"k": "var", "n": js}, "x": y2, "f": {"k": "if", "c": self.lam([], y2, et, 1, "bool"), "a": self.lam([], y2, et, 1, "double"), "b": {"k": "dbl", "v": r.choice(["10.0", "0.5"])}}}
+            cols = [c1, c2] if r.random() < 0.7 else [c2, c1]
+            shape = r.choice(["tuple", "list"])
+            self.op(shape)
+            return {"k": "Select", "s": {"k": "Select", "s": ds, "x": e, "f": sc}, "x": js, "f": {"k": shape, "es": cols}}, ["col0", "col1"], "two_step"
         if form == "two_step_tuple":
             # the common idiom: first select a tuple / dict of collections, then build the row from its components
             n = r.randint(2, 3)
